@@ -213,6 +213,20 @@ def main():
         jobs = list(P["jobs"])
         if "prepare" in P:
             jobs = jobs + P["prepare"](P, tier, tmp, seed, infra)
+        compile_results = []
+        if "compile_designs" in P:
+            import gdesign
+            def build_one(d):
+                moddir, err = gdesign.generate(d, REPO, tmp + "/c")
+                if err:
+                    return d, "generator", err
+                r = subprocess.run(["go", "build", "./gen/..."], cwd=moddir, env=GOENV, capture_output=True, text=True)
+                if r.returncode != 0:
+                    return d, "compile", (r.stdout + r.stderr)[-2500:]
+                return d, None, ""
+            os.makedirs(tmp + "/c", exist_ok=True)
+            with cf.ThreadPoolExecutor(max_workers=8) as ex:
+                compile_results = list(ex.map(build_one, P["compile_designs"]))
         tasks = []
         for job in jobs:
             rx = job["thorough"] if tier == "thorough" else job["quick"]
@@ -350,6 +364,19 @@ def main():
                 rec["how_to_replay"] = f"cd {VERIF} && ./check {prop} --tier {tier} --only '^{rec['harness']}$'  (the native replay of this model is run automatically; overlay files: harness/{job['harness_dir']}/*.go + harness/common/prelude_replay.go.tmpl)"
                 json.dump(rec, open(path, "w"), indent=1)
                 violations_out.append((rec, path))
+        known = load_known() if "known" not in dir() else known
+        for d, stage, msg in compile_results:
+            if stage is None:
+                continue
+            kf = match_known(known, prop, "design:" + d, "generated-code-compiles")
+            if kf:
+                known_seen.setdefault(kf["id"], kf)
+                continue
+            os.makedirs(replay_dir, exist_ok=True)
+            path = os.path.join(replay_dir, f"design_{d}_{stage}_failure.json")
+            json.dump({"design": d, "stage": stage, "output": msg, "how_to_replay": f"python3 /verif/gdesign.py {d}  && (cd <dir> && go build ./gen/...)"}, open(path, "w"), indent=1)
+            violations_out.append(({"harness": "design:" + d, "assert": "generated-code-compiles", "model": {}, "detail": msg[-300:]}, path))
+        P["_compiled"] = [d for d, st, _ in compile_results if st is None]
         for am in api_mismatch:
             os.makedirs(replay_dir, exist_ok=True)
             path = os.path.join(replay_dir, f"{am['harness']}_generated_api_mismatch.json")
